@@ -10,6 +10,11 @@
   report in the response is the report it returned, and the method receives the last state.
 -/
 import Rdm.Model.Pipeline
+import Rdm.Props.C15
+import Rdm.Props.C16
+import Rdm.Props.C17
+import Rdm.Props.C18
+import Rdm.Props.C19
 namespace Rdm.Props.C09
 open Rdm
 
@@ -65,5 +70,57 @@ theorem process_is_chain (apply : String → P → S → S → R (S × Rep)) (or
           simp only [hr, Except.ok.injEq, Prod.mk.injEq] at h
           obtain ⟨rfl, rfl⟩ := h
           exact .skipped b rest cur fin' outs' (process_is_chain apply orig rest cur d' fin' outs' hr)
+
+/-! ### what a bias reports is what the next stage receives (per bias, on the model)
+
+The pipeline hands `res` (first component of what `apply` returns) to the next stage and puts `rep`
+(second component) into the response, unaltered (`process_is_chain`).  The theorems below state, for
+each bias, that `rep` describes exactly `res`. -/
+
+/-- fatigue: the report carries exactly the considered / not-considered alternatives handed on, and `f` -/
+theorem fatigue_report_is_the_state_handed_on {f : Rat} {b : Bounding Rat} {cur res : DMP Rat} {vd sd : Draws Rat}
+    {rep : FatigueReport Rat} (h : fatigueBlur f b cur vd sd = .ok (res, rep)) (hd : ∀ u ∈ vd, 0 ≤ u ∧ u < 1) :
+    rep.co = res.co ∧ rep.nc = res.nc ∧ rep.f = f :=
+  let t := Rdm.Props.C17.fatigue_blurs_within_ratio h hd
+  ⟨t.2.2.2.1, t.2.2.2.2.1, t.2.2.1⟩
+
+/-- preference reversal: for every mirrored criterion the report lists id, type, range and, for every known
+    alternative as handed on, exactly the value it now holds -/
+theorem reversal_report_is_the_state_handed_on {α : Type} [Num α] {sel : List (Crit α)} {cur res : DMP α}
+    {rep : List (Reversed α)} (h : reverseSelected sel cur = .ok (res, rep)) (hs : (sel.map (·.id)).Nodup)
+    (ha : (cur.all.map (·.id)).Nodup) :
+    ∃ toRev, criteriaToReverse sel cur = .ok toRev ∧ toRev.map (·.1) = sel ∧
+      List.Forall₂ (Rdm.BiasA.ReportEntryOk res.all) toRev rep :=
+  Rdm.Props.C16.report_is_faithful h hs ha
+
+/-- concealment: every alternative handed on carries, for the new criterion, a value listed in the report,
+    next to its untouched old values -/
+theorem concealment_report_is_the_state_handed_on {α : Type} [Num α] {eps : α} {orig cur : DMP α} {p : Props α}
+    {rd g : Draws α} {res : DMP α} {rep : ConcealReport α} (h : conceal eps orig cur p rd g = .ok (res, rep)) :
+    res.co.map (·.id) = cur.co.map (·.id) ∧ res.nc.map (·.id) = cur.nc.map (·.id) ∧
+    rep.values.length = (cur.co ++ cur.nc).length ∧
+    ∀ a' ∈ res.co ++ res.nc, ∃ a ∈ cur.co ++ cur.nc, ∃ v,
+      a'.id = a.id ∧ a'.vals = a.vals ++ [(rep.id, v)] ∧ a.vals.has rep.id = false ∧ (a.id, v) ∈ rep.values :=
+  Rdm.Props.C18.conceal_gives_every_alternative_a_value_and_keeps_the_rest h
+
+/-- omission: the state handed on holds exactly the kept criteria with unchanged values and the listener's
+    restricted parameters; the reported (omitted) criteria are the other part of the split -/
+theorem omission_report_is_the_state_handed_on {α : Type} [Num α] {eps : α} {c : SplitCond α} {name : String}
+    {cur res : DMP α} {d : Draws α} {omitted : List (Crit α)} (h : omissionApply eps c name cur d = .ok (res, omitted)) :
+    List.Forall₂ (Rdm.BiasA.RestrictedTo res.crit) cur.co res.co ∧
+      List.Forall₂ (Rdm.BiasA.RestrictedTo res.crit) cur.nc res.nc ∧
+      onRemoved cur.mp res.crit = .ok res.mp :=
+  Rdm.Props.C15.omission_restricts h
+
+/-- inline anchoring: the reported applied difference of every criterion is exactly new − old of the values
+    handed on -/
+theorem anchoring_inline_report_is_new_minus_old {α : Type} [Num α] {b : Bounding α} {sc : KMap (Scale α)}
+    {p : AltDiffs α} {a' d' : Alt α} (h : inlineOne b sc p = .ok (a', d')) (hnd : (sc.map (·.1)).Nodup) :
+    a'.id = p.1.id ∧ d'.id = p.1.id ∧
+    ∃ avg, arithmeticAverage p.2 = .ok avg ∧
+      ∀ cs ∈ sc, ∃ mean v, avg.get? cs.1 = some mean ∧ p.1.vals.get? cs.1 = some v ∧
+        a'.vals.get? cs.1 = some (inlineValue b cs.2.2 v mean) ∧
+        d'.vals.get? cs.1 = some (inlineValue b cs.2.2 v mean - v) :=
+  Rdm.Props.C19.inline_applier_shifts_every_criterion_and_reports_new_minus_old h hnd
 
 end Rdm.Props.C09
